@@ -18,6 +18,8 @@ import XzVerif.Lemmas.IndexIterAll
 import XzVerif.Lemmas.IndexIterStable
 import XzVerif.Lemmas.IndexTreeBalance
 import XzVerif.Lemmas.FileInfoMain
+import XzVerif.Lemmas.RandomAccessIndex
+import XzVerif.Lemmas.RandomAccessExample
 
 namespace XzVerif.C13
 open XzVerif.Index
@@ -505,15 +507,175 @@ example :
   · refine ⟨⟨trivial, by decide +kernel, by decide +kernel⟩, by decide +kernel, by decide +kernel⟩
   · decide +kernel
 
-/-- full-strength random-access statement of the design (not proved: it needs the Block decoder of C05 composed with
-    this index; `file_info_correct` gives the addressing half — the index lists every Block with the offsets that are
-    the prefix sums of the file layout — and the check decodes every located Block of real files by an independent
-    decoder): for every Block `b` the index of `fileInfo bytes` lists, decoding the Block that starts at
-    `b.compressedFileOffset` yields the bytes `[b.uncompressedFileOffset, + b.uncompressedSize)` of the data -/
-def random_access_statement (blockDecode : List UInt8 → Option (List UInt8)) (bytes data : List UInt8) : Prop :=
-  ∀ idx, fileInfo (U64 - 1) bytes.toArray = (.streamEnd, some idx) →
-    ∀ info ∈ Impl.iterAll idx 2, ∀ b, info.block = some b →
-      blockDecode (bytes.drop b.compressedFileOffset) = some ((data.drop b.uncompressedFileOffset).take b.uncompressedSize)
+/-! ### random_access -/
+
+/-- **Random access is correct: for every valid .xz file — any number of Streams, Blocks and Stream Padding — decoding the
+    Block found at the compressed file offset the index shows yields exactly the data range the index shows.**
+
+    The file.  `xs : List XStream` describes it Block by Block: per Stream the Check ID, the Stream Padding and the Blocks
+    (`BlockDesc`: Block Header bytes `hb` decoding to `h`, Compressed Data `c`, the data `o` it holds, Block Padding, Check
+    field).  Its bytes are `fileOf xs = fileBytes (descs xs)` — Stream Header, the Blocks, Index (`index_encode` of the
+    Blocks' size pairs), Stream Footer, Stream Padding, for each Stream — i.e. the file of `file_info_correct`; its data is
+    `fileOut xs`, the Blocks' data in file order.
+    Hypotheses.  `XStream.Ok`: Check ID ≤ 15, Stream Padding ≡ 0 mod 4, the Records within the format limits, every Block
+    Header is well formed (`BlockDesc.Wf`: first byte ≠ 0, `lzma_block_header_decode` accepts it, valid filter chain,
+    Compressed Data not empty).  `SeqFile E ign cap xs`: every Block is a declarative Block (`DBlock` of
+    Lemmas/XzGrammar.lean: payload decoder maps exactly `c` to `o` with LZMA_STREAM_END, size fields if present are right,
+    Block Padding zero, Check field right) for the output allowance it gets when the file is decoded front to back with
+    `cap` bytes of output space (`cap` minus the data before it).  `E` is any payload environment with `PayloadLocal` (proved
+    for the model of the real decoder: `XzEnv.payloadLocal_std`); `Combinable`/`MemOk` as in `file_info_correct`.
+    That the Block bytes of each Stream have the total size its Records say is NOT assumed: it is derived (first conjunct:
+    the hypotheses of `file_info_correct` hold).
+    Conclusions.
+    (1) `lzma_stream_decoder` with LZMA_CONCATENATED + LZMA_FINISH on the file returns LZMA_STREAM_END, the output
+        `fileOut xs`, having consumed the whole file.
+    (2) `lzma_file_info_decoder` on the file (allocation failure of the model's allocator apart) returns an index `idx` such
+        that
+        (a) every Block `b` that a BLOCK-mode iteration of `idx` shows is served (`RandomAccess.BlockServed`): it is Block
+            `j` of Stream `i` of the file, the Stream Flags shown carry that Stream's Check ID, `b.compressedFileOffset` is
+            the position of the Block's first byte (`coff`), `b.uncompressedFileOffset` the position of its data in the
+            file's data (`uoff`), `b.uncompressedSize` / `b.unpaddedSize` / `b.totalSize` its sizes, the file continues
+            with the Block's bytes at `b.compressedFileOffset`, and for EVERY output capacity `cap'` for which the Block is
+            a declarative Block — in particular `cap - b.uncompressedFileOffset`, what the front-to-back decoder had —
+            `blockAt` (Block Header size byte, `lzma_block_header_decode`, chain validation, `block_decode`) started at
+            that offset returns LZMA_STREAM_END, exactly
+            `(data.drop b.uncompressedFileOffset).take b.uncompressedSize`, having consumed `b.totalSize` bytes;
+        (b) every Block of the file is shown by that iteration, with those offsets;
+        (c) `lzma_index_iter_locate(target)` succeeds for every `target` below the data size and shows a served Block
+            whose range contains `target`, so byte `target - b.uncompressedFileOffset` of what the Block decoder returns
+            at `b.compressedFileOffset` is byte `target` of the file's data; for larger targets it fails.
+    Not covered: the seek/read machinery of an actual reader (file_info.c's is C04 `seek_within_file_model`), and Blocks
+    that are valid only for some capacities when the header has no Uncompressed Size (see `random_access_sized`). -/
+theorem random_access (E : XzDecode.Env) (hloc : XzDecode.PayloadLocal E) (fl : XzDecode.Flags) (hc : fl.concatenated = true)
+    (cap : Nat) (xs : List RandomAccess.XStream) (hne : xs ≠ []) (hok : ∀ x ∈ xs, x.Ok)
+    (hseq : RandomAccess.SeqFile E fl.ignoreCheck cap xs) (hcomb : Combinable (RandomAccess.descs xs))
+    (memlimit : Nat) (hmem : MemOk (max 1 memlimit) (RandomAccess.descs xs)) :
+    (RandomAccess.descs xs ≠ [] ∧ ∀ d ∈ RandomAccess.descs xs, d.Ok)
+    ∧ ((XzDecode.xzDecode E fl (RandomAccess.fileOf xs) cap).ret = .streamEnd
+       ∧ (XzDecode.xzDecode E fl (RandomAccess.fileOf xs) cap).out = RandomAccess.fileOut xs
+       ∧ (XzDecode.xzDecode E fl (RandomAccess.fileOf xs) cap).consumed = (RandomAccess.fileOf xs).length)
+    ∧ ((fileInfo memlimit (RandomAccess.fileOf xs).toArray).1 = .memError
+       ∨ ∃ idx, fileInfo memlimit (RandomAccess.fileOf xs).toArray = (.streamEnd, some idx) ∧ Impl.Inv idx
+          ∧ (∀ info ∈ Impl.iterAll idx 2, ∀ b, info.block = some b →
+              RandomAccess.BlockServed E fl.ignoreCheck cap xs info.stream.flags b)
+          ∧ (∀ i j x B, xs[i]? = some x → x.blocks[j]? = some B →
+              ∃ info ∈ Impl.iterAll idx 2, ∃ b, info.block = some b
+                ∧ b.compressedFileOffset = RandomAccess.coff xs i j ∧ b.uncompressedFileOffset = RandomAccess.uoff xs i j)
+          ∧ (∀ t, t < (RandomAccess.fileOut xs).length →
+              ∃ it info b, Impl.iterLocate idx t = some (it, info) ∧ info.block = some b
+                ∧ RandomAccess.BlockServed E fl.ignoreCheck cap xs info.stream.flags b
+                ∧ b.uncompressedFileOffset ≤ t ∧ t < b.uncompressedFileOffset + b.uncompressedSize
+                ∧ (((RandomAccess.fileOut xs).drop b.uncompressedFileOffset).take b.uncompressedSize)[t - b.uncompressedFileOffset]?
+                    = (RandomAccess.fileOut xs)[t]?)
+          ∧ (∀ t, (RandomAccess.fileOut xs).length ≤ t → Impl.iterLocate idx t = none)) := by
+  have hds := RandomAccess.descs_ok xs cap hok hseq
+  have hdne : RandomAccess.descs xs ≠ [] := by
+    cases xs with
+    | nil => exact absurd rfl hne
+    | cons x r => simp [RandomAccess.descs]
+  obtain ⟨h1, h2, h3⟩ := RandomAccess.random_access_spec E hloc fl hc cap xs hne hok hseq
+  refine ⟨⟨hdne, hds⟩, h1, ?_⟩
+  rcases fileInfo_correct (RandomAccess.descs xs) hdne hds hcomb memlimit hmem with h | ⟨idx, hfi, habs, hinv⟩
+  · exact Or.inl h
+  · right
+    have hit : Impl.iterAll idx 2 = Spec.iterAll (expectedIndex (RandomAccess.descs xs)) 2 := by
+      rw [← habs]; exact Impl.iterAll_refines hinv 2
+    have hloc' : ∀ t, (Impl.iterLocate idx t).map (·.2) = Spec.locate (expectedIndex (RandomAccess.descs xs)) t := by
+      intro t; rw [← habs]; exact Impl.iterLocate_refines hinv t
+    refine ⟨idx, hfi, hinv, ?_, ?_, ?_, ?_⟩
+    · rw [hit]; exact h2
+    · rw [hit]; exact h3
+    · intro t ht
+      obtain ⟨info, b, hl, hb, hrest⟩ := RandomAccess.random_access_locate_spec E hloc fl.ignoreCheck cap xs hok hseq t ht
+      have := hloc' t
+      rw [hl] at this
+      cases hx : Impl.iterLocate idx t with
+      | none => rw [hx] at this; simp at this
+      | some p =>
+        obtain ⟨it, info'⟩ := p
+        rw [hx] at this
+        simp only [Option.map_some, Option.some.injEq] at this
+        subst this
+        exact ⟨it, info', b, rfl, hb, hrest⟩
+    · intro t ht
+      unfold Impl.iterLocate
+      rw [if_pos (by
+        rw [hinv.unc, habs, RandomAccess.uncompressedSize_index]; exact ht)]
+
+/-- **The statement in the shape of the design** (`blockDecode (bytes.drop b.compressed_file_offset) = data[b.uncompressed_file_offset, + b.uncompressed_size)`),
+    same setting as `random_access`: for every index `idx` the file-info decoder returns for the file, every Block `b` of a
+    BLOCK-mode iteration with the Stream Flags `f` shown next to it, the Block decoder — given the Check ID `f.check` from
+    the index and the output space the front-to-back decoder had at that Block — started at `b.compressedFileOffset`
+    returns LZMA_STREAM_END, the bytes `[b.uncompressedFileOffset, + b.uncompressedSize)` of the whole file's decoded data
+    (= the output of `xzDecode`), having consumed `b.totalSize` bytes. -/
+theorem random_access_decode (E : XzDecode.Env) (hloc : XzDecode.PayloadLocal E) (fl : XzDecode.Flags) (hc : fl.concatenated = true)
+    (cap : Nat) (xs : List RandomAccess.XStream) (hne : xs ≠ []) (hok : ∀ x ∈ xs, x.Ok)
+    (hseq : RandomAccess.SeqFile E fl.ignoreCheck cap xs) (hcomb : Combinable (RandomAccess.descs xs))
+    (memlimit : Nat) (hmem : MemOk (max 1 memlimit) (RandomAccess.descs xs)) :
+    ∀ idx, fileInfo memlimit (RandomAccess.fileOf xs).toArray = (.streamEnd, some idx) →
+      ∀ info ∈ Impl.iterAll idx 2, ∀ b f, info.block = some b → info.stream.flags = some f →
+        RandomAccess.blockAt E f.check fl.ignoreCheck ((RandomAccess.fileOf xs).drop b.compressedFileOffset)
+            (cap - b.uncompressedFileOffset)
+          = { ret := .streamEnd,
+              out := ((XzDecode.xzDecode E fl (RandomAccess.fileOf xs) cap).out.drop b.uncompressedFileOffset).take b.uncompressedSize,
+              consumed := b.totalSize,
+              compressed := b.unpaddedSize - ((((RandomAccess.fileOf xs).getD b.compressedFileOffset 0).toNat + 1) * 4
+                              + Container.checkSize f.check) } := by
+  intro idx hfi info hinfo b f hb hf
+  obtain ⟨_, ⟨_, hout, _⟩, hr⟩ := random_access E hloc fl hc cap xs hne hok hseq hcomb memlimit hmem
+  rcases hr with hm | ⟨idx', hfi', _, hserved, _⟩
+  · rw [hfi] at hm; cases hm
+  · rw [hfi] at hfi'
+    simp only [Prod.mk.injEq, Option.some.injEq, true_and] at hfi'
+    subst hfi'
+    obtain ⟨i, j, x, B, hx, hB, hfl, h1, h2, h3, h4, h5, _, ⟨rest, hrest⟩, hd, hall⟩ := hserved info hinfo b hb
+    rw [hf] at hfl
+    simp only [Option.some.injEq] at hfl
+    have hck : f.check = x.check := by rw [hfl]
+    have := hall _ hd
+    rw [hck, this, hout]
+    have hxm : x ∈ xs := List.mem_of_getElem? hx
+    have hBm : B ∈ x.blocks := List.mem_of_getElem? hB
+    obtain ⟨b0, tl, hhb, _⟩ := ((hok x hxm).wf B hBm).hb_cons
+    obtain ⟨hsz, _⟩ := XzDecode.blockHeaderDecodeWith_size _ _ _ _ ((hok x hxm).wf B hBm).hdr
+    have hg : (RandomAccess.fileOf xs).getD b.compressedFileOffset 0 = B.hb.getD 0 0 := by
+      have h0 : ((RandomAccess.fileOf xs).drop b.compressedFileOffset)[0]? = (RandomAccess.fileOf xs)[b.compressedFileOffset]? := by
+        rw [List.getElem?_drop]; rfl
+      rw [hrest] at h0
+      rw [List.getD_eq_getElem?_getD, ← h0]
+      simp [RandomAccess.BlockDesc.bytes, hhb]
+    rw [hg, hsz, h4]
+    simp only [RandomAccess.BlockDesc.unpadded, XzDecode.BRes.mk.injEq, true_and]
+    omega
+
+/-- When a Block Header states the Uncompressed Size — as the headers written by the multi-threaded encoder and by
+    `lzma_block_buffer_encode` do — the capacity does not matter: a Block that is valid in the front-to-back decode is
+    decoded at its offset with ANY output space that holds its data, e.g. exactly `b.uncompressedSize` bytes. -/
+theorem random_access_sized (E : XzDecode.Env) (ign : Bool) (cap : Nat)
+    (xs : List RandomAccess.XStream) (flags : Option StreamFlags) (b : Spec.BlockInfo)
+    (h : RandomAccess.BlockServed E ign cap xs flags b) (hcap : b.uncompressedFileOffset + b.uncompressedSize ≤ cap) :
+    ∃ (i j : Nat) (x : RandomAccess.XStream) (B : RandomAccess.BlockDesc), xs[i]? = some x ∧ x.blocks[j]? = some B ∧
+      ∀ u, B.h.uncompressedSize = some u → ∀ cap', b.uncompressedSize ≤ cap' →
+        RandomAccess.blockAt E x.check ign ((RandomAccess.fileOf xs).drop b.compressedFileOffset) cap'
+          = { ret := .streamEnd, out := ((RandomAccess.fileOut xs).drop b.uncompressedFileOffset).take b.uncompressedSize,
+              consumed := b.totalSize, compressed := B.c.length } := by
+  obtain ⟨i, j, x, B, hx, hB, _, _, _, h3, _, _, _, _, hd, hall⟩ := h
+  refine ⟨i, j, x, B, hx, hB, ?_⟩
+  intro u hu cap' hcap'
+  exact hall cap' (hd.of_usize hu (by omega) (by omega))
+
+/-- the hypotheses of `random_access` are satisfiable by the model of the real decoder (`XzEnv.stdEnv`: raw LZMA2 decoder,
+    CRC32): a two-Stream file with three Blocks and Stream Padding (Lemmas/RandomAccessExample.lean, kernel evaluation) -/
+example :
+    XzDecode.PayloadLocal XzEnv.stdEnv ∧ (∀ x ∈ RandomAccess.Example.xs, x.Ok)
+    ∧ RandomAccess.SeqFile XzEnv.stdEnv false XzDecode.UNLIMITED RandomAccess.Example.xs
+    ∧ Combinable (RandomAccess.descs RandomAccess.Example.xs) ∧ MemOk (max 1 100000) (RandomAccess.descs RandomAccess.Example.xs)
+    ∧ (RandomAccess.fileOf RandomAccess.Example.xs).length = 168
+    ∧ RandomAccess.coff RandomAccess.Example.xs 0 1 = 48 ∧ RandomAccess.coff RandomAccess.Example.xs 1 0 = 112
+    ∧ RandomAccess.uoff RandomAccess.Example.xs 1 0 = 14 :=
+  ⟨XzEnv.payloadLocal_std, RandomAccess.Example.xs_ok, RandomAccess.Example.xs_seq, RandomAccess.Example.xs_combinable,
+   RandomAccess.Example.xs_memOk, by rw [RandomAccess.Example.file_bytes]; rfl, by decide +kernel, by decide +kernel,
+   by decide +kernel⟩
 
 /-! ### non-vacuity -/
 
